@@ -180,71 +180,104 @@ def shrink_graph(g):
         yield h
 
 
+# ---- label families and insertion orders (C15 re-runs every property's cases through these) ----
+LABEL_FAMILIES = ["int", "bigint", "int257", "tuple", "frozenset", "str", "char"]
+
+
+def labeler(case=None):
+    """(label, inv): case["_lab"] picks the family; default identity ints"""
+    fam = (case or {}).get("_lab", "int")
+    if fam == "int":
+        return (lambda v: v), (lambda x: x)
+    if fam == "bigint":
+        f = lambda v: (1 << 61) + 7919 * v  # noqa: E731
+    elif fam == "int257":
+        f = lambda v: 257 + 13 * v  # noqa: E731   (outside CPython's small-int cache)
+    elif fam == "tuple":
+        f = lambda v: ("n", v)  # noqa: E731
+    elif fam == "frozenset":
+        f = lambda v: frozenset({v, "f%d" % v})  # noqa: E731
+    elif fam == "str":
+        f = lambda v: "".join(["X", str(v), "q"])  # noqa: E731   (built at run time: not interned)
+    elif fam == "char":
+        f = lambda v: chr(ord("a") + v)  # noqa: E731
+    else:
+        raise ValueError(fam)
+    table = {}
+
+    def lab(v):
+        x = f(v)
+        table[x] = v
+        return x
+
+    def inv(x):
+        return table[x]
+    return lab, inv
+
+
+def ordered(case, items, salt=""):
+    """insertion order: case["_order"] (an int seed) shuffles deterministically; default as given"""
+    items = list(items)
+    seed = (case or {}).get("_order")
+    if seed is not None:
+        import random as _r
+        _r.Random("%s:%s" % (seed, salt)).shuffle(items)
+    return items
+
+
 # ---- building pywhy-graphs objects (import lazily: sys.path is set by the framework) ----
-def to_mixed(g, label=lambda v: v, layers=("directed", "bidirected", "undirected"), order=None):
-    """MixedEdgeGraph with the given layers present"""
+# every builder takes case= so that label family and insertion order can be varied (C15)
+def _fill(Gobj, g, case, names):
+    lab, inv = labeler(case)
+    for v in ordered(case, g["V"], "V"):
+        Gobj.add_node(lab(v))
+    es = [(k, a, b) for k in "DBUC" if k in names for a, b in g[k]]
+    for k, a, b in ordered(case, es, "E"):
+        Gobj.add_edge(lab(a), lab(b), names[k])
+    return lab, inv
+
+
+def to_mixed(g, case=None, layers=("directed", "bidirected", "undirected")):
+    """MixedEdgeGraph with exactly the given layers present; returns (M, lab, inv)"""
     import networkx as nx
     import pywhy_graphs.networkx as pywhy_nx
-    graphs, names = [], []
     mk = {"directed": nx.DiGraph, "bidirected": nx.Graph, "undirected": nx.Graph, "circle": nx.DiGraph}
     key = {"directed": "D", "bidirected": "B", "undirected": "U", "circle": "C"}
-    for name in layers:
-        lg = mk[name]()
-        graphs.append(lg)
-        names.append(name)
-    M = pywhy_nx.MixedEdgeGraph(graphs=graphs, edge_types=names)
-    M.add_nodes_from(label(v) for v in g["V"])
-    for name in layers:
-        for a, b in g[key[name]]:
-            M.add_edge(label(a), label(b), edge_type=name)
-    return M
+    M = pywhy_nx.MixedEdgeGraph(graphs=[mk[n]() for n in layers], edge_types=list(layers))
+    lab, inv = _fill(M, g, case, {key[n]: n for n in layers})
+    return M, lab, inv
 
 
-def to_admg(g, label=lambda v: v):
+def to_admg(g, case=None):
     from pywhy_graphs import ADMG
     A = ADMG()
-    A.add_nodes_from(label(v) for v in g["V"])
-    for a, b in g["D"]:
-        A.add_edge(label(a), label(b), A.directed_edge_name)
-    for a, b in g["B"]:
-        A.add_edge(label(a), label(b), A.bidirected_edge_name)
-    for a, b in g["U"]:
-        A.add_edge(label(a), label(b), A.undirected_edge_name)
-    return A
+    lab, inv = _fill(A, g, case, {"D": "directed", "B": "bidirected", "U": "undirected"})
+    return A, lab, inv
 
 
-def to_pag(g, label=lambda v: v):
+def to_pag(g, case=None):
     from pywhy_graphs import PAG
     P = PAG()
-    P.add_nodes_from(label(v) for v in g["V"])
-    for a, b in g["D"]:
-        P.add_edge(label(a), label(b), P.directed_edge_name)
-    for a, b in g["B"]:
-        P.add_edge(label(a), label(b), P.bidirected_edge_name)
-    for a, b in g["U"]:
-        P.add_edge(label(a), label(b), P.undirected_edge_name)
-    for a, b in g["C"]:
-        P.add_edge(label(a), label(b), P.circle_edge_name)
-    return P
+    lab, inv = _fill(P, g, case, {"D": "directed", "B": "bidirected", "U": "undirected", "C": "circle"})
+    return P, lab, inv
 
 
-def to_cpdag(g, label=lambda v: v):
+def to_cpdag(g, case=None):
     from pywhy_graphs import CPDAG
     P = CPDAG()
-    P.add_nodes_from(label(v) for v in g["V"])
-    for a, b in g["D"]:
-        P.add_edge(label(a), label(b), P.directed_edge_name)
-    for a, b in g["U"]:
-        P.add_edge(label(a), label(b), P.undirected_edge_name)
-    return P
+    lab, inv = _fill(P, g, case, {"D": "directed", "U": "undirected"})
+    return P, lab, inv
 
 
-def to_digraph(g, label=lambda v: v):
+def to_digraph(g, case=None):
     import networkx as nx
+    lab, inv = labeler(case)
     Dg = nx.DiGraph()
-    Dg.add_nodes_from(label(v) for v in g["V"])
-    Dg.add_edges_from((label(a), label(b)) for a, b in g["D"])
-    return Dg
+    for v in ordered(case, g["V"], "V"):
+        Dg.add_node(lab(v))
+    for a, b in ordered(case, g["D"], "E"):
+        Dg.add_edge(lab(a), lab(b))
+    return Dg, lab, inv
 
 
 def from_mixed(M, inv=lambda v: v):
@@ -267,15 +300,18 @@ def from_mixed(M, inv=lambda v: v):
 
 
 def snapshot(M):
-    """full observable state of a mixed graph for argument-integrity checks"""
+    """full observable state of a mixed graph for argument-integrity checks (compare before/after a call)"""
     s = {"nodes": sorted((repr(n), repr(sorted(d.items(), key=repr))) for n, d in M.nodes(data=True)),
          "graph": repr(sorted(M.graph.items(), key=repr))}
-    for name, lg in M.get_graphs().items():
-        es = []
-        for a, b, d in lg.edges(data=True):
-            if not lg.is_directed():
-                a, b = sorted((a, b), key=repr)
-            es.append((repr(a), repr(b), repr(sorted(d.items(), key=repr))))
-        s[name] = sorted(es)
-        s[name + "_nodes"] = sorted(repr(n) for n in lg.nodes)
+    if hasattr(M, "get_graphs"):
+        for name, lg in M.get_graphs().items():
+            es = []
+            for a, b, d in lg.edges(data=True):
+                if not lg.is_directed():
+                    a, b = sorted((a, b), key=repr)
+                es.append((repr(a), repr(b), repr(sorted(d.items(), key=repr))))
+            s[name] = sorted(es)
+            s[name + "_nodes"] = sorted(repr(n) for n in lg.nodes)
+    else:
+        s["edges"] = sorted((repr(a), repr(b), repr(sorted(d.items(), key=repr))) for a, b, d in M.edges(data=True))
     return s
